@@ -768,9 +768,9 @@ pub fn code_block(input: ParseString) -> ParseResult<SectionElement> {
       let ebnf_text = block_src.iter().collect::<String>();
       match parse_grammar(&ebnf_text) {
         Ok(grammar_tree) => {return Ok((input, SectionElement::Grammar(grammar_tree)));},
-        Err(err) => {
-          println!("Error parsing EBNF grammar: {:?}", err);
-          todo!();
+        Err(_err) => {
+          // an invalid grammar is a located parse error of the document, not a panic
+          return Err(nom::Err::Error(ParseError::new(input, "Error parsing EBNF grammar")));
         }
       }
     }
@@ -805,14 +805,8 @@ pub fn code_block(input: ParseString) -> ParseResult<SectionElement> {
             return Ok((input, SectionElement::FencedMechCode(FencedMechCode{code: mech_tree, config, options})));
           },
           Err(err) => {
-            return Err(nom::Err::Error(ParseError {
-                cause_range: SourceRange::default(),
-                remaining_input: input,
-                error_detail: ParseErrorDetail {
-                    message: "Generic error parsing Mech code block",
-                    annotation_rngs: Vec::new(),
-                },
-            }));
+            // located at the cursor like every other error (a default 0:0-0:0 range lies outside every input)
+            return Err(nom::Err::Error(ParseError::new(input, "Generic error parsing Mech code block")));
           }
         };
       } else if tag.starts_with("equation") || tag.starts_with("eq") || tag.starts_with("math") || tag.starts_with("latex") || tag.starts_with("tex") {
